@@ -151,6 +151,42 @@ class EntryReader:
         return self._read(self.eacc, self.efield, typed_obj(self.lib, self.ns + 'ZoneEra', cells))
 
 
+def transition_letter(lib, cells, letters):
+    """extended::Transition::letter() interpreted (E-SEQ, typed, the brokers through their bodies) on a transition whose rule has
+    the given table cells and whose era refers to a policy with the given letters array -> the string it points to, or a
+    description of what came back"""
+    from .aeval import AEval, AObj, CxxModule, Raised, Ref, cxx_object
+    NSX = 'ace_time::extended::'
+    f = lib.fn(NSX + 'Transition::letter')
+    rule = cxx_object(lib, NSX + 'ZoneRule')
+    rule.attrs.update({k: v for k, v in dict(cells).items() if isinstance(v, int) and k in rule.attrs})
+    strings = [[ord(ch) for ch in s] + [0] for s in letters]
+    pol = cxx_object(lib, NSX + 'ZonePolicy')
+    pol.attrs.update({'rules': [rule], 'letters': strings, 'numRules': 1, 'numLetters': len(strings)})
+    era = cxx_object(lib, NSX + 'ZoneEra')
+    era.attrs['zonePolicy'] = pol
+    tr = cxx_object(lib, NSX + 'Transition')
+    match = cxx_object(lib, NSX + 'ZoneMatch')
+    try:
+        tr.attrs['rule'].attrs[broker_field(lib, NSX + 'ZoneRuleBroker')] = rule
+        match.attrs['era'].attrs[broker_field(lib, NSX + 'ZoneEraBroker')] = era
+    except (KeyError, AttributeError) as x_:
+        raise AnalysisError('%s: a Transition no longer holds a rule broker and a match with an era broker (%r)' % (f.loc, x_))
+    tr.attrs['match'] = match
+    tr.attrs['letterBuf'] = [0, 0]
+    try:
+        r = AEval(module=CxxModule(lib, ['ace_time::']), typed=True, max_steps=20000).call_function(f.name, [], recv=tr, chosen=CxxModule._Fn(f))
+    except Raised as x_:
+        return 'raises %s' % x_.what
+    except IndexError:
+        return 'a read outside the letters array'
+    if isinstance(r, Ref) and isinstance(r.box, list):
+        r = r.box[r.key:]
+    if isinstance(r, list) and 0 in r:
+        return ''.join(chr(c_) for c_ in r[:r.index(0)])
+    return 'null' if r is None else repr(r)
+
+
 def check_db(cfg, R, lib, T):
     scope = T.scope
     ns = 'ace_time::%s::' % scope
@@ -202,6 +238,11 @@ def check_db(cfg, R, lib, T):
                     bad.append('letter: index %r does not select %r in the letters array of %s' % (gl, lt, pol))
                 if gl >= 32:
                     bad.append('letter: index %d collides with printable characters' % gl)
+                elif scope == 'extended' and letters is not None:
+                    # what the processor makes of the index: extended::Transition::letter() interpreted on a transition of this rule
+                    s_ = transition_letter(lib, e.cells, letters)
+                    if s_ != lt:
+                        bad.append('letter: extended::Transition::letter() answers %r for the index %d, the recorded line says %r' % (s_, gl, lt))
             if bad:
                 R.violation('R1-rule', c, e.loc, '; '.join(bad), detail=['line: ' + (e.comment or '')])
     # ---- eras
